@@ -160,7 +160,99 @@ var binSwap = map[token.Token][]token.Token{
 	token.ADD: {token.SUB}, token.SUB: {token.ADD},
 }
 
+// identSub: in one function, a use of a parameter / local variable is replaced by another parameter / local
+// of that function ("value taken from the wrong variable"); the compiler filters the ill-typed ones. Only uses
+// in argument lists, as the base of a selector, on the right of an assignment and in return statements are
+// mutated, and only by variables declared before the use.
+func (g *gen) identSub(body *ast.BlockStmt, ft *ast.FuncType) {
+	if os.Getenv("MUTGEN_IDENTSUB") == "" || body == nil {
+		return
+	}
+	type decl struct {
+		name string
+		pos  token.Pos
+		obj  *ast.Object
+	}
+	var decls []decl
+	seen := map[*ast.Object]bool{}
+	addIdent := func(id *ast.Ident) {
+		if id == nil || id.Name == "_" || id.Obj == nil || id.Obj.Kind != ast.Var || seen[id.Obj] {
+			return
+		}
+		seen[id.Obj] = true
+		decls = append(decls, decl{id.Name, id.Pos(), id.Obj})
+	}
+	if ft.Params != nil {
+		for _, f := range ft.Params.List {
+			for _, n := range f.Names {
+				addIdent(n)
+			}
+		}
+	}
+	ast.Inspect(body, func(n ast.Node) bool {
+		switch x := n.(type) {
+		case *ast.FuncLit:
+			return false // nested literals are functions of their own
+		case *ast.AssignStmt:
+			if x.Tok == token.DEFINE {
+				for _, l := range x.Lhs {
+					if id, ok := l.(*ast.Ident); ok && id.Obj != nil && id.Obj.Pos() == id.Pos() {
+						addIdent(id)
+					}
+				}
+			}
+		case *ast.ValueSpec:
+			for _, n := range x.Names {
+				addIdent(n)
+			}
+		}
+		return true
+	})
+	if len(decls) < 2 {
+		return
+	}
+	mutate := func(e ast.Expr) {
+		id, ok := e.(*ast.Ident)
+		if !ok || id.Obj == nil || !seen[id.Obj] || id.Obj.Pos() == id.Pos() {
+			return
+		}
+		for _, d := range decls {
+			if d.obj == id.Obj || d.name == id.Name || d.pos > id.Pos() {
+				continue
+			}
+			g.add(id.Pos(), id.End(), d.name, "identsub", id.Name+" -> "+d.name+"   in: "+g.lineOf(id))
+		}
+	}
+	ast.Inspect(body, func(n ast.Node) bool {
+		switch x := n.(type) {
+		case *ast.FuncLit:
+			return false
+		case *ast.CallExpr:
+			for _, a := range x.Args {
+				mutate(a)
+			}
+		case *ast.SelectorExpr:
+			mutate(x.X)
+		case *ast.AssignStmt:
+			for _, r := range x.Rhs {
+				mutate(r)
+			}
+		case *ast.ReturnStmt:
+			for _, r := range x.Results {
+				mutate(r)
+			}
+		}
+		return true
+	})
+}
+
 func (g *gen) visit(n ast.Node) bool {
+	switch n := n.(type) {
+	case *ast.FuncDecl:
+		g.identSub(n.Body, n.Type)
+	case *ast.FuncLit:
+		g.identSub(n.Body, n.Type)
+	}
 	switch n := n.(type) {
 	case *ast.GenDecl:
 		if n.Tok == token.CONST || n.Tok == token.IMPORT {
